@@ -303,10 +303,21 @@ impl<T> Handle<T> {
         // level as well, in case the max `tracing` level changed. We do this
         // *after* rebuilding the interest cache, as that's when the `tracing`
         // max level filter is re-computed.
+        //
+        // Reading the `tracing` max level and publishing it to `log` is one
+        // step with respect to other reloads: otherwise a reload that read an
+        // older maximum could publish it after a later reload has published
+        // the newer one, and `log` would keep a stale max level.
         #[cfg(feature = "tracing-log")]
-        tracing_log::log::set_max_level(tracing_log::AsLog::as_log(
-            &crate::filter::LevelFilter::current(),
-        ));
+        {
+            static PUBLISH_LOG_MAX: std::sync::Mutex<()> = std::sync::Mutex::new(());
+            let _publishing = PUBLISH_LOG_MAX
+                .lock()
+                .unwrap_or_else(std::sync::PoisonError::into_inner);
+            tracing_log::log::set_max_level(tracing_log::AsLog::as_log(
+                &crate::filter::LevelFilter::current(),
+            ));
+        }
 
         Ok(())
     }
